@@ -275,12 +275,17 @@ def decSpecFS (s : String) : Option FS := (decSFS s).map specFS
 
 /-- `closure false fs rounds S`, stopping at the first round that adds nothing (`expand` only appends new
 contexts, so an unchanged length is a fixed point and all further rounds are the identity): the same list,
-computed in as many rounds as the tree is deep instead of `rounds`. -/
-def closureFix (fs : FS) : Nat → List Ctx → List Ctx
+computed in as many rounds as the tree is deep instead of `rounds`.  It also stops once the list has more than
+`cap` contexts: a tree with a module cycle spelled through `..` has a context per spelling (`a/../b/../a.rs`, ..)
+and their number can double with every round; the list returned then is simply not closed (`closed:0`, the
+hypotheses are "not established", which is always a sound answer: `closedB` is evaluated on the list itself). -/
+def closureFix (fs : FS) (cap : Nat) : Nat → List Ctx → List Ctx
   | 0, S => S
   | n + 1, S =>
     let S' := expand false fs S
-    if S'.length == S.length then S else closureFix fs n S'
+    if S'.length == S.length then S
+    else if S'.length > cap then S'
+    else closureFix fs cap n S'
 
 def mkConfig (skipChildren formatGenerated : Bool) (ignored : List Path) : Config :=
   { skipChildren := skipChildren, formatGeneratedFiles := formatGenerated,
@@ -408,7 +413,7 @@ def handle (op : String) (args : List String) : Option String :=
     match parseFileAsModule fs root with
     | .ok _ _ =>
       let own := (toDirectoryOwnership fs root).getD .unownedViaBlock
-      let S := closureFix fs (fuelFor fs) [⟨root, own⟩]
+      let S := closureFix fs (8 * fs.length + 16) (fuelFor fs) [⟨root, own⟩]
       let b := fun (x : Bool) => if x then "1" else "0"
       let closed := decide ((⟨root, own⟩ : Ctx) ∈ S) && closedB false fs S
       pure s!"plain:{b (fsPlainB fs)},closed:{b closed},unique:{b (uniqueB S)},probe:{b (probeAgreesB fs S)},macros:{b (sfsTame sfs)}"
